@@ -88,3 +88,98 @@ func SpecSplit(p Parser) bool       { panic("abstract spec function") }
 //@   ensures the_cursor_is_put_back_behind_the_count_byte: buf.i == 1
 //@   loop 1:
 //@     invariant walked: n == zmWalked - old(zmWalked) && n >= 0 && buf != nil
+
+// ---- RDB length encoding (rdb.c rdbLoadLenByRef): the two high bits of the first byte select the
+// ---- form - 00: the low 6 bits; 01: 14 bits, low 6 bits first (big-endian); 11: a special
+// ---- encoding named by the low 6 bits; 10: 0x80 a 32-bit and 0x81 a 64-bit big-endian length
+// ---- follow, every other 10xxxxxx byte is invalid. The input is an abstract byte stream:
+//   SpecIn(k)  the k-th byte of the reader's input;  rdbAt  how many bytes have been taken
+func SpecIn(k uint64) uint8 { panic("abstract spec function") }
+
+//@ spec SpecIn abstract
+//@ func RdbReader.ReadUint8(self) (b, err)
+//@   trusted abstract input: takes the next byte of the stream
+//@   ghost var rdbAt uint64
+//@   modifies rdbAt
+//@   ensures next_byte: err == nil ==> b == SpecIn(old(rdbAt)) && rdbAt == old(rdbAt) + 1
+//@ func RdbReader.ReadUint32BigEndian(self) (v, err)
+//@   trusted abstract input: takes the next four bytes of the stream, most significant first
+//@   modifies rdbAt
+//@   ensures next_four_bytes: err == nil ==> v == uint32(SpecIn(old(rdbAt))) << 24 | uint32(SpecIn(old(rdbAt) + 1)) << 16 | uint32(SpecIn(old(rdbAt) + 2)) << 8 | uint32(SpecIn(old(rdbAt) + 3)) && rdbAt == old(rdbAt) + 4
+//@ func RdbReader.ReadUint64BigEndian(self) (v, err)
+//@   trusted abstract input: takes the next eight bytes of the stream, most significant first
+//@   modifies rdbAt
+//@   ensures next_eight_bytes: err == nil ==> v == uint64(SpecIn(old(rdbAt))) << 56 | uint64(SpecIn(old(rdbAt) + 1)) << 48 | uint64(SpecIn(old(rdbAt) + 2)) << 40 | uint64(SpecIn(old(rdbAt) + 3)) << 32 | uint64(SpecIn(old(rdbAt) + 4)) << 24 | uint64(SpecIn(old(rdbAt) + 5)) << 16 | uint64(SpecIn(old(rdbAt) + 6)) << 8 | uint64(SpecIn(old(rdbAt) + 7)) && rdbAt == old(rdbAt) + 8
+//@ func RdbReader.readEncodedLength
+//@   arith bv
+//@   properties C03
+//@   requires nonnil: r != nil
+//@   modifies rdbAt
+//@   ensures six_bits: err == nil && SpecIn(old(rdbAt)) >> 6 == 0 ==> !encoded && length == uint64(SpecIn(old(rdbAt)) & 0x3f) && rdbAt == old(rdbAt) + 1
+//@   ensures fourteen_bits_high_part_first: err == nil && SpecIn(old(rdbAt)) >> 6 == 1 ==> !encoded && length == uint64(SpecIn(old(rdbAt)) & 0x3f) << 8 | uint64(SpecIn(old(rdbAt) + 1)) && rdbAt == old(rdbAt) + 2
+//@   ensures special_encoding_is_named_by_the_low_six_bits: err == nil && SpecIn(old(rdbAt)) >> 6 == 3 ==> encoded && length == uint64(SpecIn(old(rdbAt)) & 0x3f) && rdbAt == old(rdbAt) + 1
+//@   ensures thirty_two_bits_big_endian: err == nil && SpecIn(old(rdbAt)) == 0x80 ==> !encoded && length == uint64(SpecIn(old(rdbAt) + 1)) << 24 | uint64(SpecIn(old(rdbAt) + 2)) << 16 | uint64(SpecIn(old(rdbAt) + 3)) << 8 | uint64(SpecIn(old(rdbAt) + 4)) && rdbAt == old(rdbAt) + 5
+//@   ensures sixty_four_bits_big_endian: err == nil && SpecIn(old(rdbAt)) == 0x81 ==> !encoded && length == uint64(SpecIn(old(rdbAt) + 1)) << 56 | uint64(SpecIn(old(rdbAt) + 2)) << 48 | uint64(SpecIn(old(rdbAt) + 3)) << 40 | uint64(SpecIn(old(rdbAt) + 4)) << 32 | uint64(SpecIn(old(rdbAt) + 5)) << 24 | uint64(SpecIn(old(rdbAt) + 6)) << 16 | uint64(SpecIn(old(rdbAt) + 7)) << 8 | uint64(SpecIn(old(rdbAt) + 8)) && rdbAt == old(rdbAt) + 9
+//@   ensures any_other_first_byte_is_refused: SpecIn(old(rdbAt)) >> 6 == 2 && SpecIn(old(rdbAt)) != 0x80 && SpecIn(old(rdbAt)) != 0x81 ==> err != nil
+//@ func RdbReader.ReadLength64
+//@   arith bv
+//@   properties C03
+//@   requires nonnil: r != nil
+//@   modifies rdbAt
+//@   ensures a_special_encoding_is_not_a_length: SpecIn(old(rdbAt)) >> 6 == 3 ==> result1 != nil
+//@   ensures six_bits: result1 == nil && SpecIn(old(rdbAt)) >> 6 == 0 ==> result0 == uint64(SpecIn(old(rdbAt)) & 0x3f) && rdbAt == old(rdbAt) + 1
+
+// ---- RDB strings (rdb.c rdbGenericLoadStringObject): a plain string is its length followed by that
+// ---- many bytes; the special encodings 0, 1, 2 are a signed 8/16/32-bit little-endian integer that
+// ---- stands for its decimal text; every other special encoding except 3 (LZF) is refused.
+//@ func RdbReader.ReadUint16(self) (v, err)
+//@   trusted abstract input: takes the next two bytes of the stream, least significant first
+//@   modifies rdbAt
+//@   ensures next_two_bytes: err == nil ==> v == uint16(SpecIn(old(rdbAt))) | uint16(SpecIn(old(rdbAt) + 1)) << 8 && rdbAt == old(rdbAt) + 2
+//@ func RdbReader.ReadUint32(self) (v, err)
+//@   trusted abstract input: takes the next four bytes of the stream, least significant first
+//@   modifies rdbAt
+//@   ensures next_four_bytes: err == nil ==> v == uint32(SpecIn(old(rdbAt))) | uint32(SpecIn(old(rdbAt) + 1)) << 8 | uint32(SpecIn(old(rdbAt) + 2)) << 16 | uint32(SpecIn(old(rdbAt) + 3)) << 24 && rdbAt == old(rdbAt) + 4
+//@ func RdbReader.ReadBytes(self, n) (p, err)
+//@   trusted abstract input: takes the next n bytes of the stream
+//@   modifies rdbAt
+//@   ensures next_n_bytes: err == nil ==> len(p) == n && rdbAt == old(rdbAt) + uint64(n) && (forall i int :: 0 <= i && i < n ==> p[i] == SpecIn(old(rdbAt) + uint64(i)))
+//@ func RdbReader.ReadInt8
+//@   arith bv
+//@   properties C03
+//@   requires nonnil: r != nil
+//@   modifies rdbAt
+//@   ensures signed_byte: result1 == nil ==> result0 == int8(SpecIn(old(rdbAt))) && rdbAt == old(rdbAt) + 1
+//@ func RdbReader.ReadInt16
+//@   arith bv
+//@   properties C03
+//@   requires nonnil: r != nil
+//@   modifies rdbAt
+//@   ensures signed_little_endian: result1 == nil ==> result0 == int16(uint16(SpecIn(old(rdbAt))) | uint16(SpecIn(old(rdbAt) + 1)) << 8) && rdbAt == old(rdbAt) + 2
+//@ func RdbReader.ReadInt32
+//@   arith bv
+//@   properties C03
+//@   requires nonnil: r != nil
+//@   modifies rdbAt
+//@   ensures signed_little_endian: result1 == nil ==> result0 == int32(uint32(SpecIn(old(rdbAt))) | uint32(SpecIn(old(rdbAt) + 1)) << 8 | uint32(SpecIn(old(rdbAt) + 2)) << 16 | uint32(SpecIn(old(rdbAt) + 3)) << 24) && rdbAt == old(rdbAt) + 4
+//@ func RdbReader.ReadLength
+//@   arith bv
+//@   properties C03
+//@   requires nonnil: r != nil
+//@   modifies rdbAt
+//@   ensures a_special_encoding_is_not_a_length: SpecIn(old(rdbAt)) >> 6 == 3 ==> result1 != nil
+//@   ensures six_bits: result1 == nil && SpecIn(old(rdbAt)) >> 6 == 0 ==> result0 == uint32(SpecIn(old(rdbAt)) & 0x3f) && rdbAt == old(rdbAt) + 1
+//@   ensures fourteen_bits_high_part_first: result1 == nil && SpecIn(old(rdbAt)) >> 6 == 1 ==> result0 == uint32(SpecIn(old(rdbAt)) & 0x3f) << 8 | uint32(SpecIn(old(rdbAt) + 1)) && rdbAt == old(rdbAt) + 2
+//@ func lzfDecompress(in, outlen) (out, err)
+//@   trusted not decided here (LZF is outside what is claimed)
+//@   modifies nothing
+//@ func RdbReader.ReadString
+//@   arith bv
+//@   properties C03
+//@   requires nonnil: r != nil
+//@   modifies rdbAt
+//@   ensures a_plain_string_is_its_length_and_then_its_bytes: result1 == nil && SpecIn(old(rdbAt)) >> 6 == 0 ==> len(result0) == int(SpecIn(old(rdbAt)) & 0x3f) && rdbAt == old(rdbAt) + 1 + uint64(SpecIn(old(rdbAt)) & 0x3f) && (forall i int :: 0 <= i && i < len(result0) ==> result0[i] == SpecIn(old(rdbAt) + 1 + uint64(i)))
+//@   ensures int8_stands_for_its_decimal_text: result1 == nil && SpecIn(old(rdbAt)) == 0xC0 ==> string(result0) == types.SpecDec(int64(int8(SpecIn(old(rdbAt) + 1)))) && rdbAt == old(rdbAt) + 2
+//@   ensures int16_stands_for_its_decimal_text: result1 == nil && SpecIn(old(rdbAt)) == 0xC1 ==> string(result0) == types.SpecDec(int64(int16(uint16(SpecIn(old(rdbAt) + 1)) | uint16(SpecIn(old(rdbAt) + 2)) << 8))) && rdbAt == old(rdbAt) + 3
+//@   ensures int32_stands_for_its_decimal_text: result1 == nil && SpecIn(old(rdbAt)) == 0xC2 ==> string(result0) == types.SpecDec(int64(int32(uint32(SpecIn(old(rdbAt) + 1)) | uint32(SpecIn(old(rdbAt) + 2)) << 8 | uint32(SpecIn(old(rdbAt) + 3)) << 16 | uint32(SpecIn(old(rdbAt) + 4)) << 24))) && rdbAt == old(rdbAt) + 5
+//@   ensures an_unknown_special_encoding_is_refused: SpecIn(old(rdbAt)) >> 6 == 3 && SpecIn(old(rdbAt)) & 0x3f > 3 ==> result1 != nil
